@@ -262,6 +262,21 @@ func assignTable(fd *ast.FuncDecl, lhs string) []string {
 	return rows
 }
 
+// ifConds lists the conditions of the if statements of a function, in source order.
+func ifConds(fd *ast.FuncDecl) []string {
+	var out []string
+	if fd == nil || fd.Body == nil {
+		return out
+	}
+	ast.Inspect(fd.Body, func(n ast.Node) bool {
+		if s, ok := n.(*ast.IfStmt); ok {
+			out = append(out, exprString(s.Cond))
+		}
+		return true
+	})
+	return out
+}
+
 func main() {
 	repo := flag.String("repo", "/repo", "repository root")
 	outp := flag.String("out", "Facts.lean", "output file")
@@ -319,6 +334,11 @@ func main() {
 	}
 	sort.Strings(conn)
 	o.strs("connectionTypeTable", conn, "pb/message.go ConnectionType")
+
+	prov := parse(*repo, "provider/provider.go")
+	o.strs("loadRecentConds", ifConds(funcDecl(prov, "loadRecentlyReprovidedRegions")), "provider/provider.go loadRecentlyReprovidedRegions: if conditions")
+	o.strs("schedulePrefixConds", ifConds(funcDecl(prov, "schedulePrefixNoLock")), "provider/provider.go schedulePrefixNoLock: if conditions")
+	o.strs("individualProvideConds", ifConds(funcDecl(prov, "individualProvide")), "provider/provider.go individualProvide: if conditions")
 
 	o.strs("notFound", o.miss, "facts whose source expression was not found")
 	o.b.WriteString("end KadDHT.Facts\n")
